@@ -390,3 +390,494 @@ func rulePresentMeansNotNil(c *Ctx) {
 			fname(fn)+" decides whether the key is present by something other than a comparison of the raw value with LNil: a key that holds false counts as absent — t[k] = v calls __newindex (or t[k] consults __index) for a key that is there")
 	}
 }
+
+// ruleCompilerDecodes: C01 (R01-decode for the compiler's own readers). The peephole passes of the
+// compiler read operands back out of instructions they have emitted. Where the path pins the opcode of
+// the instruction (a case of a switch over opGetOpCode), the accessor used belongs to that opcode's
+// declared format: B and C exist in ABC instructions only, Bx in ABx, sBx in AsBx — LOADK's constant
+// index read with opGetArgB is the low 9 bits of it (equal below 512 constants, wrong beyond).
+func ruleCompilerDecodes(c *Ctx) {
+	const R = "R01-decode"
+	p := c.P
+	t := p.vmTable()
+	rows := p.opPropsRows()
+	if !t.TableOK || len(rows) == 0 {
+		c.und(R, "compiler:table", "-", "opcode table not available")
+		return
+	}
+	want := map[string]string{"opGetArgB": "opTypeABC", "opGetArgC": "opTypeABC", "opGetArgBx": "opTypeABx", "opGetArgSbx": "opTypeASbx"}
+	getOp := p.Fn("lua", "opGetOpCode")
+	n := 0
+	for _, fn := range p.srcFuncs {
+		if fn.Pkg == nil || fn.Pkg.Pkg.Path() != luaPath || fn.Blocks == nil || !strings.HasPrefix(p.pos(fn.Pos()), "compile.go:") {
+			continue
+		}
+		var g *PCFG
+		ord := map[string]int{}
+		allInstrs(fn, func(in ssa.Instruction) {
+			sc := staticCallee(in)
+			if sc == nil {
+				return
+			}
+			format, ok := want[sc.Name()]
+			if !ok {
+				return
+			}
+			if g == nil {
+				g = p.G(fn)
+			}
+			if !g.Live(in) {
+				return
+			}
+			inst := in.(*ssa.Call).Call.Args[0]
+			// the opcode the path pins for this instruction word
+			pinned := int64(-1)
+			for _, cd := range g.expandAnd(g.CondsAtInstr(in)) {
+				b, ok := cd.V.(*ssa.BinOp)
+				if !ok || !((b.Op == token.EQL && cd.Sense) || (b.Op == token.NEQ && !cd.Sense)) {
+					continue
+				}
+				x, y := b.X, b.Y
+				if _, isK := constInt(x); isK {
+					x, y = y, x
+				}
+				k, isK := constInt(y)
+				oc, isCall := stripConv(x).(*ssa.Call)
+				if !isK || !isCall || oc.Call.StaticCallee() != getOp || vkey(oc.Call.Args[0]) != vkey(inst) {
+					continue
+				}
+				pinned = k
+			}
+			if pinned < 0 || int(pinned) >= len(rows) || int(pinned) >= len(t.Ops) {
+				return
+			}
+			n++
+			c.Sites++
+			c.touch(fn)
+			name := t.Ops[pinned].Name
+			ord[name+sc.Name()]++
+			key := fmt.Sprintf("compiler:%s:%s(%s)#%d", fn.Name(), sc.Name(), name, ord[name+sc.Name()])
+			if name == "OP_SETLIST" {
+				// the marker of the two-word form is C == 0 (VM, patchCode, compileTableExpr): a zero test of
+				// another operand of a SETLIST is a different question (B == 0: open-ended)
+				for _, r := range *in.(*ssa.Call).Referrers() {
+					if b, ok := r.(*ssa.BinOp); ok && (b.Op == token.EQL || b.Op == token.NEQ) {
+						if k, isK := constInt(b.Y); isK && k == 0 && fn.Name() == "Last" {
+							c.check(sc.Name() == "opGetArgC", R, "compiler:Last:extended-SETLIST-told-by-C", p.ipos(in), "the data word of a SETLIST is recognised by C == 0",
+								"(*codeStore).Last recognises the two-word SETLIST by a zero test of "+strings.TrimPrefix(sc.Name(), "opGetArg")+" instead of C (C == 0 means 'the batch number is in the next word', B == 0 means 'up to the top'): the batch word of a large constructor is handed to the peepholes as an instruction and can be popped — the word after the SETLIST is then a real instruction the VM skips as data")
+						}
+					}
+				}
+			}
+			c.check(rows[pinned].Type == format, R, key, p.ipos(in), "accessor of the opcode's declared format "+rows[pinned].Type,
+				fmt.Sprintf("%s reads %s of an instruction the path knows to be %s, whose declared format is %s: the field overlaps only part of the operand that was written (LOADK's constant index read as B is its low 9 bits: right below 512 constants, a different constant beyond)", fname(fn), strings.TrimPrefix(sc.Name(), "opGetArg"), name, rows[pinned].Type))
+		})
+	}
+	c.check(n >= 5, R, "compiler:decode-sites", "-", fmt.Sprintf("%d operand reads with a pinned opcode in compile.go", n), "no operand read with a pinned opcode found in compile.go (the rule lost its anchors)")
+}
+
+// ruleYieldRoomCoversPushes: C06/C12. The room switchToParentThread asks of the resumer before a yield
+// covers what it then pushes: nargs values plus the leading status unless this thread was resumed
+// through a wrapper. Evaluated for both conventions with a concrete count: the argument of canHold is
+// at least the number of pushes (an over-estimate — nargs+1 always — is fine).
+func ruleYieldRoomCoversPushes(c *Ctx) {
+	const R = "R06-killarg"
+	p := c.P
+	fn := c.need(R, "lua", "switchToParentThread")
+	wF := p.Field("lua", "LState", "wrapped")
+	canHold := p.Fn("lua", "(*registry).canHold")
+	if fn == nil || wF == nil || canHold == nil {
+		c.und(R, "switchToParentThread:room-covers-pushes", "-", "LState.wrapped / registry.canHold not found")
+		return
+	}
+	p.computeNoReturn()
+	var nargs, kill *ssa.Parameter
+	for _, pm := range fn.Params {
+		switch pm.Name() {
+		case "nargs":
+			nargs = pm
+		case "kill":
+			kill = pm
+		}
+	}
+	calls := callsTo(fn, canHold)
+	if nargs == nil || kill == nil || len(calls) == 0 {
+		c.und(R, "switchToParentThread:room-covers-pushes", p.pos(fn.Pos()), "parameters nargs/kill or the canHold call not found")
+		return
+	}
+	okc, evaluated := true, 0
+	worst := ""
+	for _, wrapped := range []bool{false, true} {
+		const N = 7
+		need := int64(N)
+		if !wrapped {
+			need++
+		}
+		min, have := int64(0), false
+		reachGivenW(fn, func(v ssa.Value) (aval, bool) {
+			if v == ssa.Value(nargs) {
+				return aInt(N), true
+			}
+			if v == ssa.Value(kill) {
+				return aBool(false), true
+			}
+			if _, ok := loadsField(v, wF); ok {
+				return aBool(wrapped), true
+			}
+			return aval{}, false
+		}, func(v ssa.Value, a aval) {
+			for _, cl := range calls {
+				if v == cl.Call.Args[1] && a.isInt {
+					if !have || a.i < min {
+						min, have = a.i, true
+					}
+				}
+			}
+		}, p.isNoReturnCall)
+		if !have {
+			// the argument is a constant expression of nargs the watcher does not see as an instruction
+			for _, cl := range calls {
+				l := lin(cl.Call.Args[1])
+				if len(l.T) == 1 && l.T[leafKey(nargs)] == 1 {
+					min, have = N+l.K, true
+				}
+			}
+		}
+		if !have {
+			continue
+		}
+		evaluated++
+		if min < need {
+			okc = false
+			worst = fmt.Sprintf("resumed %s: room for %d asked, %d pushed", map[bool]string{false: "by coroutine.resume", true: "through a wrapper"}[wrapped], min, need)
+		}
+	}
+	c.Sites++
+	c.check(evaluated == 2 && okc, R, "switchToParentThread:room-covers-pushes", p.ipos(calls[0]), "for both result conventions the room asked for is at least the number of values pushed",
+		"the room switchToParentThread asks of the resumer before a yield is smaller than what it pushes ("+worst+" for a yield of 7 values): with exactly that much room left the overflow is raised half-way, in the resumer — the coroutine stays suspended with the same yield pending and delivers it again")
+}
+
+// ruleAssignResultsByPosition: C02 "all of them in the last position of a multiple assignment": when
+// the last right-hand expression supplies several targets, target i takes the result in register
+// regstart + (i - first): the register stored for a table-field target is linear in the target's own
+// index with coefficient 1 — not a counter that advances only for some kinds of target.
+func ruleAssignResultsByPosition(c *Ctx) {
+	const R = "R01-assign"
+	p := c.P
+	fn := c.need(R, "lua", "compileAssignStmtRight")
+	vF := p.Field("lua", "assigncontext", "valuerk")
+	if fn == nil || vF == nil {
+		c.und(R, "compileAssignStmtRight:results-by-target-position", "-", "assigncontext.valuerk not found")
+		return
+	}
+	g := p.G(fn)
+	// the inner loop (over the targets fed by one multi-valued expression) is nested in the loop over the
+	// right-hand expressions
+	depth := map[*ssa.BasicBlock]int{}
+	for _, li := range g.loops() {
+		for b := range li.Body {
+			depth[b]++
+		}
+	}
+	inLoop := map[*ssa.BasicBlock]bool{}
+	for b, d := range depth {
+		if d >= 2 {
+			inLoop[b] = true
+		}
+	}
+	n, okc := 0, true
+	var where ssa.Instruction
+	allInstrs(fn, func(in ssa.Instruction) {
+		st, ok := isFieldStore(in, vF)
+		if !ok || !inLoop[in.Block()] || !g.Live(in) {
+			return
+		}
+		fa := st.Addr.(*ssa.FieldAddr)
+		// acs[i] is a slice of pointers: fa.X = *(&acs[i])
+		var idx ssa.Value
+		x := fa.X
+		if u, ok := x.(*ssa.UnOp); ok {
+			x = u.X
+		}
+		if ia, ok := x.(*ssa.IndexAddr); ok {
+			idx = ia.Index
+		}
+		if idx == nil {
+			return
+		}
+		if _, isK := constInt(st.Val); isK {
+			return
+		}
+		n++
+		if lin(st.Val).T[leafKey(stripConv(idx))] != 1 {
+			okc = false
+			where = in
+		}
+	})
+	pos := p.pos(fn.Pos())
+	if where != nil {
+		pos = p.ipos(where)
+	}
+	c.Sites++
+	c.check(n > 0 && okc, R, "compileAssignStmtRight:results-by-target-position", pos, fmt.Sprintf("%d store(s) of a result register in a loop over the targets, each linear in the target's index", n),
+		"compileAssignStmtRight gives a table-field target of a multiple assignment a result register that does not follow the target's own position (a separate counter, advanced for some targets only): in `x, t.a = f()` the field receives the first result instead of the second")
+}
+
+// ruleDepthCounterBalanced: C08 "every text the grammar accepts is accepted" (up to the documented
+// nesting limit): the syntax-level counter funcContext.exprDepth is stepped back on every way out of a
+// function that stepped it up — the decrement is deferred before anything can return. A return between
+// the increment and the defer leaks a level per call, and a long flat program runs into the limit.
+func ruleDepthCounterBalanced(c *Ctx) {
+	const R = "R08-terminate"
+	p := c.P
+	dF := p.Field("lua", "funcContext", "exprDepth")
+	leave := p.Fn("lua", "leaveExpr")
+	if dF == nil || leave == nil {
+		c.und(R, "depth-counter:anchors", "-", "funcContext.exprDepth / leaveExpr not found")
+		return
+	}
+	n := 0
+	for _, fn := range p.srcFuncs {
+		if fn.Pkg == nil || fn.Pkg.Pkg.Path() != luaPath || fn.Blocks == nil || fn == leave {
+			continue
+		}
+		var ups []ssa.Instruction
+		allInstrs(fn, func(in ssa.Instruction) {
+			st, ok := isFieldStore(in, dF)
+			if !ok {
+				return
+			}
+			if b, ok := st.Val.(*ssa.BinOp); ok && b.Op == token.ADD {
+				ups = append(ups, in)
+			}
+		})
+		if len(ups) == 0 {
+			continue
+		}
+		g := p.G(fn)
+		for i, up := range ups {
+			n++
+			c.Sites++
+			c.touch(fn)
+			b, idx := after(up)
+			isDefer := func(in ssa.Instruction) bool {
+				d, ok := in.(*ssa.Defer)
+				return ok && d.Call.StaticCallee() == leave
+			}
+			isDown := func(in ssa.Instruction) bool {
+				if isDefer(in) {
+					return true
+				}
+				st, ok := isFieldStore(in, dF)
+				if !ok {
+					return false
+				}
+				bo, ok := st.Val.(*ssa.BinOp)
+				return ok && bo.Op == token.SUB
+			}
+			exit := func(in ssa.Instruction) bool {
+				if isReturn(in) {
+					return true
+				}
+				_, isPanic := in.(*ssa.Panic)
+				return isPanic || p.isNoReturnCall(in)
+			}
+			okc, wit := g.MustPassBefore(b, idx, isDown, exit)
+			pos := p.ipos(up)
+			if wit != nil {
+				pos = p.ipos(wit)
+			}
+			c.check(okc, R, fmt.Sprintf("depth-counter:%s#%d:stepped-back-on-every-way-out", fn.Name(), i+1), pos, "the decrement (or its defer) lies on every way from the increment to a return or a raise",
+				fname(fn)+" steps funcContext.exprDepth up and can leave (return or raise) before the decrement is deferred: every such call leaks a syntax level for the rest of the function being compiled — a flat program with enough of them is rejected with 'chunk has too many syntax levels'")
+		}
+	}
+	c.check(n >= 2, R, "depth-counter:sites", "-", fmt.Sprintf("%d increments of funcContext.exprDepth examined", n), "increments of funcContext.exprDepth not found")
+}
+
+// ruleInsertShiftsWhateverTheValue: C09/C18 "storing nil deletes" is about keyed stores; a positional
+// insert moves the elements at and after the position up whatever is inserted (table.insert(t, pos, nil)
+// leaves a hole at pos). LTable.Insert does not decide anything by its value argument: no branch of the
+// function depends on it.
+func ruleInsertShiftsWhateverTheValue(c *Ctx) {
+	const R = "R18-insert"
+	p := c.P
+	fn := c.need(R, "lua", "(*LTable).Insert")
+	if fn == nil || len(fn.Params) < 3 {
+		return
+	}
+	val := ssa.Value(fn.Params[2])
+	var bad ssa.Instruction
+	allInstrs(fn, func(in ssa.Instruction) {
+		iff, ok := in.(*ssa.If)
+		if !ok || bad != nil {
+			return
+		}
+		if dependsOnValue(iff.Cond, val, 0) {
+			bad = in
+		}
+	})
+	pos := p.pos(fn.Pos())
+	if bad != nil {
+		pos = p.ipos(bad)
+	}
+	c.Sites++
+	c.check(bad == nil, R, "Insert:no-branch-on-the-inserted-value", pos, "no branch of LTable.Insert depends on the value being inserted",
+		"LTable.Insert branches on the value it is given: a positional insert has to shift t[pos..#t] up whatever is inserted — with an early return for nil, table.insert(t, pos, nil) leaves the list unshifted and every element at or after pos reads back one key too low")
+}
+
+// ruleParenthesisedReturnCount: F131. C02 "one [result] in a … parenthesised position": `return (f())`
+// emits a RETURN that names exactly one value (B = 2). An open RETURN (B = 0, up to the top) after the
+// one-result call relies on where the call left the top — a resume with surplus values leaves it higher
+// and `return (coroutine.yield())` hands them all on.
+func ruleParenthesisedReturnCount(c *Ctx) {
+	const R = "R02-full"
+	p := c.P
+	fn := c.need(R, "lua", "compileReturnStmt")
+	adjF := p.Field("ast", "FuncCallExpr", "AdjustRet")
+	addABC := p.Fn("lua", "(*codeStore).AddABC")
+	if fn == nil || adjF == nil || addABC == nil {
+		c.und(R, "compileReturnStmt:parenthesised-call-returns-one", "-", "FuncCallExpr.AdjustRet / AddABC not found")
+		return
+	}
+	g := p.G(fn)
+	n, okc := 0, true
+	var where ssa.Instruction
+	for _, cl := range callsTo(fn, addABC) {
+		if !g.Live(cl) {
+			continue
+		}
+		under := false
+		for _, cd := range g.expandAnd(g.CondsAtInstr(cl)) {
+			if _, ok := loadsField(cd.V, adjF); ok && cd.Sense {
+				under = true
+			}
+		}
+		if !under {
+			continue
+		}
+		n++
+		if k, ok := constInt(cl.Call.Args[3]); !ok || k != 2 {
+			okc = false
+			where = cl
+		}
+	}
+	pos := p.pos(fn.Pos())
+	if where != nil {
+		pos = p.ipos(where)
+	}
+	c.Sites++
+	c.check(n > 0 && okc, R, "compileReturnStmt:parenthesised-call-returns-one", pos, fmt.Sprintf("%d RETURN emission(s) on the parenthesised arm, B = 2", n),
+		"compileReturnStmt does not emit RETURN with B = 2 (one value) for `return (f())`: an open RETURN hands on whatever lies above the call's single result — `return (coroutine.yield())` resumed with three values returns three")
+}
+
+// ruleResumeRefusesBeforeItPushes: F132. C06 "a … coroutine cannot be resumed [when refused] and is
+// left as it was": LState.Resume builds the first frame of a thread that has not started only after
+// every refusal (running, dead, normal, depth): no refusal return — a return that builds its own error
+// with newApiErrorS — is reachable once the frame has been pushed.
+func ruleResumeRefusesBeforeItPushes(c *Ctx) {
+	const R = "R06-resumeapi"
+	p := c.P
+	fn := c.need(R, "lua", "(*LState).Resume")
+	mk := p.Fn("lua", "newApiErrorS")
+	if fn == nil || mk == nil {
+		c.und(R, "Resume:first-frame-after-the-refusals", "-", "newApiErrorS not found")
+		return
+	}
+	g := p.G(fn)
+	n, okc := 0, true
+	var where ssa.Instruction
+	allInstrs(fn, func(in ssa.Instruction) {
+		if !g.Live(in) {
+			return
+		}
+		cc := callOf(in)
+		if cc == nil {
+			return
+		}
+		isPush := false
+		if cc.IsInvoke() && cc.Method.Name() == "Push" && strings.Contains(cc.Value.Type().String(), "callFrameStack") {
+			isPush = true
+		}
+		if sc := cc.StaticCallee(); sc != nil && sc.Name() == "Push" && strings.Contains(recvNamed(sc), "CallFrameStack") {
+			isPush = true
+		}
+		if !isPush {
+			return
+		}
+		n++
+		b, i := after(in)
+		if g.walk(b, i, nil, func(x ssa.Instruction) bool { return isCallTo(x, mk) }) {
+			okc = false
+			where = in
+		}
+	})
+	pos := p.pos(fn.Pos())
+	if where != nil {
+		pos = p.ipos(where)
+	}
+	c.Sites++
+	c.check(n > 0 && okc, R, "Resume:first-frame-after-the-refusals", pos, fmt.Sprintf("%d frame push(es), no refusal reachable after them", n),
+		"LState.Resume pushes the first frame of a thread that has not started and can still refuse the resume afterwards: the refusal leaves the frame behind, the next Resume pushes a second one and the body runs twice for one successful resume")
+}
+
+// rulePseudoIndexNeedsFrame: F133. C10 "within any host function or at top level … reads outside the
+// list give nil": at top level no function runs and LState.currentFrame is nil. In Get and Replace the
+// environment arm tests for that; every other use of the current frame in these two functions is under
+// the same test (the arm for upvalue indices dereferenced it unconditionally and crashed the host).
+func rulePseudoIndexNeedsFrame(c *Ctx) {
+	const R = "R10-bounds"
+	p := c.P
+	cfF := p.Field("lua", "LState", "currentFrame")
+	if cfF == nil {
+		c.und(R, "pseudo-index:anchors", "-", "LState.currentFrame not found")
+		return
+	}
+	for _, name := range []string{"(*LState).Get", "(*LState).Replace"} {
+		fn := c.need(R, "lua", name)
+		if fn == nil {
+			continue
+		}
+		g := p.G(fn)
+		n := 0
+		var bad ssa.Instruction
+		allInstrs(fn, func(in ssa.Instruction) {
+			fa, ok := in.(*ssa.FieldAddr)
+			if !ok || !g.Live(in) {
+				return
+			}
+			if _, isCF := loadsField(fa.X, cfF); !isCF {
+				return
+			}
+			n++
+			guarded := g.holdsOnAllPaths(in.Block(), func(cd Cond) bool {
+				b, ok := cd.V.(*ssa.BinOp)
+				if !ok {
+					return false
+				}
+				_, lx := loadsField(b.X, cfF)
+				_, ly := loadsField(b.Y, cfF)
+				if !lx && !ly {
+					return false
+				}
+				other := b.Y
+				if ly {
+					other = b.X
+				}
+				if cst, ok := other.(*ssa.Const); !ok || !cst.IsNil() {
+					return false
+				}
+				return (b.Op == token.NEQ && cd.Sense) || (b.Op == token.EQL && !cd.Sense)
+			}, 0)
+			if !guarded && bad == nil {
+				bad = in
+			}
+		})
+		pos := p.pos(fn.Pos())
+		if bad != nil {
+			pos = p.ipos(bad)
+		}
+		c.Sites++
+		c.check(n > 0 && bad == nil, R, strings.TrimPrefix(name, "(*LState).")+":current-frame-used-only-where-there-is-one", pos, fmt.Sprintf("%d use(s) of the current frame, each under currentFrame != nil", n),
+			fname(fn)+" dereferences LState.currentFrame on a path that has not tested it: at top level (no function running) it is nil — L.Get(UpvalueIndex(1)) from the host crashes the process instead of answering nil")
+	}
+}
